@@ -410,7 +410,7 @@ func (in *inst) operate(l Letter, s *sess, check bool) []mc.Fail {
 	}
 	if in.o.Checks.Answers && check {
 		for id, sts := range s.got {
-			if sig, what := answerRule(sts, in.o.FIBAck); sig != "" {
+			if sig, what := AnswerRule(sts, in.o.FIBAck); sig != "" {
 				bad("C06/"+sig, "session %d operation %d (%s): results %v: %s", l.S, id, ribx.Text(s.sent[id]), sts, what)
 			}
 		}
@@ -479,8 +479,8 @@ func diffSnap(a, b snap) string {
 	return strings.Join(d, "+")
 }
 
-// answerRule checks the result sequence of one operation id on one stream.
-func answerRule(sts []spb.AFTResult_Status, fib bool) (string, string) {
+// AnswerRule checks the result sequence of one operation id on one stream.
+func AnswerRule(sts []spb.AFTResult_Status, fib bool) (string, string) {
 	nF, nR, nP := 0, 0, 0
 	for i, s := range sts {
 		switch s {
